@@ -41,6 +41,9 @@ EXPLANATION = (
     "word views are modelled); a helper that only accepts data of exactly nbytes bytes is accepted iff every caller slices "
     "the data to its low bytes (helper and callers are judged together, also by R-C18-dispatch); "
     "read_mem/write_mem address exactly [addr, addr+size). "
+    "R-C18-read-pure: MagicMemoryFL's methods are evaluated on an abstract instance (instance attributes = abstract state, "
+    "byte array = versioned opaque image) after every history of <= 2 reads/writes/AMOs/write_mem: read(addr, nbytes) returns "
+    "the current bytes [addr, addr+nbytes) and does not modify the image, i.e. it does not depend on state left by earlier calls. "
     "R-C18-purity: delay/stall components store only None or a private copy of the incoming message, never modify or "
     "construct a message, are FIFO shaped (insert slot 0, remove slot -1, rotate only when slot -1 is empty), the RNG "
     "feeds only rdy/val expressions, stall handshakes fire on both sides together, and timing parameters do not reach "
@@ -687,13 +690,8 @@ def rule_dispatch(repo):
                       call.lineno)
             else:
                 r.ok(c.m, c.q, cons)
-    # 3. MagicMemoryFL forwards (the one bytearray, addr, nbytes[, data]) to the byte helpers: the methods are evaluated with
-    #    a recording stand-in for the helper, for every byte count 1..8 at two alignments
-    stores = [n for n in ast.walk(fm.get_class('MagicMemoryFL')) if isinstance(n, ast.Assign) and isinstance(n.value, ast.Call)
-              and norm(n.value.func) == 'bytearray' and len(n.targets) == 1 and isinstance(n.targets[0], ast.Attribute)]
-    if len(stores) != 1:
-        raise AnalysisError("MagicMemoryFL: expected exactly one bytearray backing store")
-    store_attr = stores[0].targets[0].attr
+    # 3. MagicMemoryFL forwards (the one bytearray, addr, nbytes[, data]) to the byte helpers: the methods of a fresh abstract
+    #    instance are evaluated with recording stand-ins for the helpers, for every byte count 1..8 at two alignments
     for meth, helper in (('read', 'read_bytearray_bits'), ('write', 'write_bytearray_bits')):
         f = fm.get_func(f'MagicMemoryFL.{meth}')
         ps = [a.arg for a in f.args.args]
@@ -704,41 +702,34 @@ def rule_dispatch(repo):
             continue
         bad = None
         for base, nb in itertools.product((1000, 1003), range(1, 9)):
-            img = ImgMem()
-            rec = []
-            RET = ('value-read',)
+            inst = FLInstance(repo)
             DATA = SB([f'D{k}' for k in range(nb)])
-
-            def hook(*args, rec=rec, RET=RET):
-                rec.append(args)
-                return RET
-            env = {f'{ps[0]}.{store_attr}': img}
-            it = FnInterp(env, funcs=dict(BASE_FUNCS, **{helper: hook}))
             r.evaluations += 1
             try:
-                got = it.apply(Closure(f, env), [None, BV(16, base), nb] + ([DATA] if meth == 'write' else []))
+                got = inst.call(meth, [BV(16, base), nb] + ([DATA] if meth == 'write' else []))
                 err = None
             except Raised as ex:
                 got, err = None, ex.what
+            rec = [e for e in inst.log if e[0] == meth]
+            other = [e for e in inst.log if e[0] != meth]
             if err is not None:
                 bad = f"addr={base}, nbytes={nb}: raises {err}"
-            elif len(rec) != 1:
-                bad = f"addr={base}, nbytes={nb}: {helper} is called {len(rec)} times"
+            elif len(rec) != 1 or other:
+                bad = f"addr={base}, nbytes={nb}: {helper} is called {len(rec)} times" + \
+                      (f" and the memory is also {other[0][0]}-accessed" if other else '')
             else:
-                args = rec[0]
-                want_n = 3 if meth == 'read' else 4
-                if len(args) != want_n or args[0] is not img:
-                    bad = f"addr={base}, nbytes={nb}: {helper} is not applied to the backing bytearray with {want_n} arguments"
-                elif not isinstance(args[1], (int, BV)) or int(args[1]) != base or isinstance(args[2], bool) \
-                        or not isinstance(args[2], (int, BV)) or int(args[2]) != nb:
-                    bad = f"addr={base}, nbytes={nb}: {helper} receives (addr, nbytes) = ({args[1]!r}, {args[2]!r})"
-                elif meth == 'write' and not (isinstance(args[3], SB) and args[3] == DATA):
+                e = rec[0]
+                if e[1] is not inst.img:
+                    bad = f"addr={base}, nbytes={nb}: {helper} is not applied to the backing bytearray"
+                elif (e[2], e[3]) != (base, nb):
+                    bad = f"addr={base}, nbytes={nb}: {helper} receives (addr, nbytes) = ({e[2]}, {e[3]})"
+                elif meth == 'write' and not (isinstance(e[4], SB) and e[4] == DATA):
                     bad = f"addr={base}, nbytes={nb}: {helper} receives other data than the caller's"
-                elif meth == 'read' and got is not RET:
-                    bad = f"addr={base}, nbytes={nb}: read does not return the helper's value unchanged"
+                elif meth == 'read' and got != ReadVal(base, nb, 0):
+                    bad = f"addr={base}, nbytes={nb}: read returns {got!r}, not the helper's value unchanged"
             if bad:
                 break
-        cons = f'{helper}({ps[0]}.{store_attr}, {", ".join(ps[1:])})'
+        cons = f'{helper}({ps[0]}.{FLInstance(repo).store_attr}, {", ".join(ps[1:])})'
         if bad:
             r.bad(fm, q, cons, bad + f" -- address / byte count / data must reach {helper} unchanged", f.lineno)
         else:
@@ -1208,12 +1199,106 @@ def _check_wiring(c, conts, edges, r, cq):
 
 # ---------------------------------------------------------------------------
 class FnInterp(Interp):
-    """Interp that also executes stores to attributes of `self` (kept in the environment under their dotted name)"""
+    """Interp that also executes stores to attributes of `self`.  They are kept under their dotted name, in the shared
+    instance-state dictionary funcs['__state__'] when there is one (so that the state survives from one method call to the
+    next and across nested s.method(...) calls), else in the local environment."""
+    def _state(self):
+        return self.funcs.get('__state__')
+
+    def ev_Attribute(self, e):
+        st = self._state()
+        if st is not None:
+            k = norm(e)
+            if k in st:
+                return st[k]
+        return super().ev_Attribute(e)
+
     def store_other(self, target, value, stmt):
         if isinstance(target, ast.Attribute):
-            self.env[norm(target)] = value
+            st = self._state()
+            (st if st is not None else self.env)[norm(target)] = value
         else:
             super().store_other(target, value, stmt)
+
+
+class ReadVal:
+    """the value the byte helper returns for (addr, nbytes) at memory version `ver`"""
+    ABSTRACT_METHODS = ('clone',)
+
+    def __init__(self, addr, n, ver):
+        self.key = (addr, n, ver)
+
+    def clone(self):
+        return ReadVal(*self.key)
+
+    def __eq__(self, o):
+        return isinstance(o, ReadVal) and self.key == o.key
+
+    def __hash__(self):
+        return hash(self.key)
+
+    def __repr__(self):
+        return f"<bytes [{self.key[0]}:{self.key[0] + self.key[1]}) of memory version {self.key[2]}>"
+
+
+class FLInstance:
+    """abstract MagicMemoryFL object: instance attributes written by construct()/the methods are abstract state; the backing
+    bytearray is an opaque image with a version number that every modification bumps; the byte helpers are recording
+    stand-ins (they are judged on their own by R-C18-endian)"""
+    def __init__(self, repo, amo_codes=(), mod=None):
+        fm = mod if mod is not None else repo.mod(FL)
+        self.fm = fm
+        cd = fm.get_class('MagicMemoryFL')
+        self.methods = fm.methods('MagicMemoryFL')
+        con = self.methods.get('construct')
+        if con is None:
+            raise AnalysisError("anchor vanished: MagicMemoryFL.construct")
+        self.me = con.args.args[0].arg
+        stores = [n for n in ast.walk(cd) if isinstance(n, ast.Assign) and isinstance(n.value, ast.Call)
+                  and norm(n.value.func) == 'bytearray' and len(n.targets) == 1 and isinstance(n.targets[0], ast.Attribute)]
+        if len(stores) != 1:
+            raise AnalysisError("MagicMemoryFL: expected exactly one bytearray backing store")
+        self.store_attr = stores[0].targets[0].attr
+        self.img = ImgMem()
+        self.helper_writes = 0
+        self.log = []
+        self.state = {}
+        for st in con.body:          # plain attribute initialisations of construct()
+            if isinstance(st, ast.Assign) and all(isinstance(t, ast.Attribute) and norm(t.value) == self.me for t in st.targets):
+                if st is stores[0]:
+                    val = self.img
+                else:
+                    try:
+                        val = Interp({}, funcs=BASE_FUNCS).ev(st.value)
+                    except (AnalysisError, Raised):
+                        continue
+                for t in st.targets:
+                    self.state[f'{self.me}.{t.attr}'] = val
+        self.state[f'{self.me}.{self.store_attr}'] = self.img
+        self.funcs = dict(BASE_FUNCS, len=len, read_bytearray_bits=self._h_read, write_bytearray_bits=self._h_write)
+        self.funcs['__state__'] = self.state
+        for name in self.methods:
+            if name not in ('construct', 'line_trace'):
+                self.funcs[f'{self.me}.{name}'] = (lambda *a, name=name: self.call(name, list(a)))
+        self.env = {'AMO_FUNS': {c: (lambda m_, a_, c=c: ('amo-result', c, m_, a_)) for c in amo_codes}}
+
+    def version(self):
+        return self.helper_writes + len(self.img.writes)
+
+    def _h_read(self, mem, addr, n):
+        self.log.append(('read', mem, int(addr), int(n)))
+        return ReadVal(int(addr), int(n), self.version())
+
+    def _h_write(self, mem, addr, n, data):
+        self.log.append(('write', mem, int(addr), int(n), data))
+        self.helper_writes += 1
+
+    def call(self, name, args):
+        f = self.methods.get(name)
+        if f is None:
+            raise AnalysisError(f"anchor vanished: MagicMemoryFL.{name}")
+        it = FnInterp(dict(self.env), funcs=self.funcs)
+        return it.apply(Closure(f, dict(self.env)), [None] + list(args))
 
 
 class ImgMem(SymMem):
@@ -1241,6 +1326,103 @@ class ImgMem(SymMem):
     def store(self, idx, value):
         lo, hi = self._bounds(idx)
         self.writes.append((lo, hi, value))
+
+
+_READ_PROBE = """
+class MagicMemoryFL:
+  def construct( s, n ):
+    s.mem = bytearray( n )
+    s.last = None
+    s.val = None
+  def read( s, addr, nbytes ):
+    if int(addr) != s.last:
+      s.last = int(addr)
+      s.val = read_bytearray_bits( s.mem, addr, nbytes )
+    return s.val
+  def write( s, addr, nbytes, data ):
+    write_bytearray_bits( s.mem, addr, nbytes, data )
+  def amo( s, amo, addr, nbytes, data ):
+    ret = s.read( addr, nbytes )
+    s.write( addr, nbytes, AMO_FUNS[ int(amo) ]( ret, data ) )
+    return ret
+  def write_mem( s, addr, data ):
+    s.mem[ addr : addr + len(data) ] = data
+"""
+
+
+def _read_histories(make_inst, code, r):
+    """evaluate read after every history of length <= 2; returns (failures, number of histories)"""
+    W4 = SB(['W0', 'W1', 'W2', 'W3'])
+    pool = [('read', 1000, 1), ('read', 1000, 4), ('read', 1004, 4), ('read', 1001, 2),
+            ('write', 1000, 1), ('write', 1000, 4), ('amo', 1000, 4), ('write_mem', 1000, 4)]
+    finals = [(1000, 1), (1000, 2), (1000, 4), (1004, 4)]
+
+    def do(inst, op):
+        kind, a, n = op
+        if kind == 'read':
+            return inst.call('read', [BV(16, a), n])
+        if kind == 'write':
+            return inst.call('write', [BV(16, a), n, SB(W4.b[:n])])
+        if kind == 'amo':
+            return inst.call('amo', [BV(4, code), BV(16, a), n, BV(8 * n, 1)])
+        return inst.call('write_mem', [a, [('byte', k) for k in range(n)]])
+
+    def show(op):
+        return f"{op[0]}({op[1]}, {op[2]}{', ...' if op[0] != 'read' else ''})"
+    failures = {}
+    total = 0
+    for hl in (0, 1, 2):
+        for hist in itertools.product(pool, repeat=hl):
+            for fa, fn in finals:
+                total += 1
+                if r is not None:
+                    r.evaluations += 1
+                inst = make_inst()
+                hs = ', '.join(show(o) for o in hist) or 'a fresh memory'
+                try:
+                    for op in hist:
+                        do(inst, op)
+                    v0 = inst.version()
+                    got = inst.call('read', [BV(16, fa), fn])
+                    v1 = inst.version()
+                except Raised as ex:
+                    failures.setdefault('raises', f"after {hs}: read({fa}, {fn}) raises {ex.what}")
+                    continue
+                want = ReadVal(fa, fn, v0)
+                if v1 != v0:
+                    failures.setdefault('modifies', f"after {hs}: read({fa}, {fn}) modifies the memory image")
+                elif got != want:
+                    failures.setdefault('stale', f"after {hs}: read({fa}, {fn}) returns {got!r}; it must return {want!r} -- "
+                                                 f"read(addr, nbytes) must be a function of the current memory contents only (the "
+                                                 f"result depends on instance state left behind by earlier calls)")
+    return failures, total
+
+
+def rule_read_pure(repo):
+    r = RuleResult('R-C18-read-pure', "MagicMemoryFL.read(addr, nbytes) is a function of the current memory contents only: after "
+                                      "every short history of reads / writes / AMOs / write_mem it returns the bytes "
+                                      "[addr, addr+nbytes) of the current image and leaves the image unchanged")
+    _, types = _memtypes(repo)
+    code = types.get('AMO_ADD', min(v for k, v in types.items() if k.startswith('AMO_')))
+    fm = repo.mod(FL)
+    f = fm.get_func('MagicMemoryFL.read')
+    # embedded positive example (the expected finding count on the real tree is zero): a read memo keyed by the address only
+    from sa.loader import Module
+    probe = Module(None, 'embedded/read_probe.py', _READ_PROBE)
+    pf, _ = _read_histories(lambda: FLInstance(repo, amo_codes=types.values(), mod=probe), code, None)
+    if 'stale' not in pf or 'raises' in pf:
+        raise AnalysisError("R-C18-read-pure: embedded history-dependent read not flagged (checker broken)")
+    r.ok('embedded', 'probe', 'a read memo keyed by the address only is flagged on the embedded example', nontrivial=False)
+    failures, total = _read_histories(lambda: FLInstance(repo, amo_codes=types.values()), code, r)
+    for key, cons in (('raises', f'read evaluates after every history ({total} histories of length <= 2)'),
+                      ('modifies', 'read leaves the image unchanged'),
+                      ('stale', 'read returns the current bytes [addr, addr+nbytes)')):
+        if key in failures:
+            r.bad(fm, 'MagicMemoryFL.read', cons, failures[key], f.lineno)
+        else:
+            r.ok(fm, 'MagicMemoryFL.read', cons)
+    r.require_floor(4)
+    return r
 
 
 def _bits_ctor(nb, v=0):
@@ -1891,13 +2073,23 @@ def _connects_of(con):
     return _connects(c)
 
 
-RULES = [rule_layout, rule_amo_table, rule_dispatch, rule_echo, rule_pairing, rule_endian, rule_purity]
+RULES = [rule_layout, rule_amo_table, rule_dispatch, rule_echo, rule_pairing, rule_endian, rule_read_pure, rule_purity]
 
 
 # ---------------------------------------------------------------------------
 # self-test of the checker (thorough tier)
 def _m(name, file, old, new, rule=None, count=1):
     return dict(name=name, file=file, old=old, new=new, rule=rule, count=count)
+
+
+def _memo_edits(read_body, invalidate):
+    """MagicMemoryFL with a one-entry memo of the last read"""
+    e = [dict(file=FL, old="    s.trace = \"     \"\n    @update_once", new="    s.last_rd_key = None\n    s.last_rd_data = None\n    s.trace = \"     \"\n    @update_once"),
+         dict(file=FL, old="    return read_bytearray_bits( s.mem, addr, nbytes )\n", new=read_body)]
+    if invalidate:
+        e.append(dict(file=FL, old="    s.trace = \"[wr ]\"\n    write_bytearray_bits(", new="    s.trace = \"[wr ]\"\n    s.last_rd_key = None\n    write_bytearray_bits("))
+        e.append(dict(file=FL, old="    s.mem[ addr : addr + len(data) ] = data", new="    s.last_rd_key = None\n    s.mem[ addr : addr + len(data) ] = data"))
+    return e
 
 
 _AMO_TAIL_CL = """            resp = resp_classes[i]( req.type_, req.opaque, 0, req.len,
@@ -1968,6 +2160,12 @@ MUTANTS = [
         dict(file=STREAM, old="s.mem.write( req.addr, len_, req.data[0:len_<<3] )", new="s.mem.write( req.addr, len_, req.data )")]),
     _m('write-to_bytes-big-endian', BYTES, "    end  = addr + nbytes\n\n    while addr < end:\n      arr[addr] = data & 255\n      data >>= 8\n      addr += 1",
        "    arr[ addr : addr+nbytes ] = int(data).to_bytes( nbytes, 'big' )", 'R-C18-endian'),
+    dict(name='fl-read-memo-keyed-by-address-only', file=FL, rule='R-C18-read-pure', edits=_memo_edits(
+        "    addr = int(addr)\n    if addr != s.last_rd_key:\n      s.last_rd_key = addr\n      s.last_rd_data = read_bytearray_bits( s.mem, addr, nbytes )\n    return s.last_rd_data.clone()\n",
+        True)),
+    dict(name='fl-read-memo-survives-writes', file=FL, rule='R-C18-read-pure', edits=_memo_edits(
+        "    key = ( int(addr), nbytes )\n    if key != s.last_rd_key:\n      s.last_rd_key = key\n      s.last_rd_data = read_bytearray_bits( s.mem, addr, nbytes )\n    return s.last_rd_data.clone()\n",
+        False)),
     # --- purity / FIFO shape
     _m('deq-pipe-no-copy', DELAY, "    s.pipeline[0] = clone_deepcopy(msg)\n\n  @non_blocking( lambda s: s.pipeline[-1] is not None )", "    s.pipeline[0] = msg\n\n  @non_blocking( lambda s: s.pipeline[-1] is not None )", 'R-C18-purity'),
     _m('deq-pipe-rotates-when-slot0-empty', DELAY, "        if s.pipeline[-1] is None:\n          s.pipeline.rotate()", "        if s.pipeline[0] is None:\n          s.pipeline.rotate()", 'R-C18-purity'),
@@ -2042,6 +2240,9 @@ EQUIV = [
        "    begin = int(addr)\n    if nbytes == 4 and begin & 3 == 0:\n      return Bits( 32, memoryview( arr ).cast( 'I' )[ begin >> 2 ] )\n    addr  = begin + nbytes - 1\n"),
     _m('read-via-int-from_bytes', BYTES, "    addr  = begin + nbytes - 1\n\n    while addr >= begin:\n      ret = (ret << 8) + arr[addr]\n      addr -= 1\n",
        "    ret = int.from_bytes( arr[ begin : begin+nbytes ], 'little' )\n"),
+    dict(name='fl-read-memo-keyed-by-addr-and-size-invalidated', file=FL, edits=_memo_edits(
+        "    key = ( int(addr), nbytes )\n    if key != s.last_rd_key:\n      s.last_rd_key = key\n      s.last_rd_data = read_bytearray_bits( s.mem, addr, nbytes )\n    return s.last_rd_data.clone()\n",
+        True)),
     _m('stall-rdy-conjuncts-swapped', STALL, "lambda s: s.stall_rgen.random() > s.stall_prob and s.send.rdy()", "lambda s: s.send.rdy() and s.stall_rgen.random() > s.stall_prob"),
 ]
 
